@@ -137,7 +137,12 @@ fn gen_spec(rng: &mut Rng) -> Option<Spec> {
     if rng.chance(1, 8) {
         return None;
     }
-    let (min, max) = match rng.weighted(&[2, 2, 4]) {
+    let (min, max) = match rng.weighted(&[2, 2, 4, 1]) {
+        3 => {
+            // long padding runs (internal block sizes)
+            let m = rng.range(15, 140) as usize;
+            (Some(m), if rng.chance(1, 2) { Some(m + rng.below(30) as usize) } else { None })
+        }
         0 => (Some(rng.below(14) as usize), None),
         1 => (None, Some(rng.below(14) as usize)),
         _ => {
